@@ -11,6 +11,9 @@ import sys
 import time
 
 VERIF = os.path.dirname(os.path.dirname(os.path.abspath(__file__)))
+# where evidence/ and replays/ are written (overridden by the mutant runner
+# so that sensitivity experiments never touch the committed evidence)
+OUT = os.environ.get('SIM_OUT_DIR') or VERIF
 PY = sys.executable
 NWORKERS = int(os.environ.get('SIM_WORKERS', '16'))
 HASHSEEDS = ['0', '1', '4242', '31337']
@@ -289,7 +292,7 @@ def known_match(mod, known, spec, result):
 
 
 def write_replay(check, spec, result, hashseed, name):
-    d = os.path.join(VERIF, 'replays')
+    d = os.path.join(OUT, 'replays')
     os.makedirs(d, exist_ok=True)
     path = os.path.join(d, name)
     with open(path, 'w') as f:
@@ -480,7 +483,7 @@ def main(check, tier, seed, runs_override=None):
             reported.append({'idx': v['idx'], 'replay': path,
                              'viol': res.get('viol'), 'min_runs': nmin})
         for d in ce_div:
-            path = os.path.join(VERIF, 'replays',
+            path = os.path.join(OUT, 'replays',
                                 '%s-crossenv-%d.json' % (check, len(reported)))
             os.makedirs(os.path.dirname(path), exist_ok=True)
             with open(path, 'w') as f:
@@ -527,8 +530,8 @@ def main(check, tier, seed, runs_override=None):
             'reported': len(reported), 'extra': extra, 'phases': phases,
             'same_class_runs': {str(k): v[:10]
                                 for k, v in seen_cls.items()}})
-        os.makedirs(os.path.join(VERIF, 'evidence'), exist_ok=True)
-        with open(os.path.join(VERIF, 'evidence', check + '.json'),
+        os.makedirs(os.path.join(OUT, 'evidence'), exist_ok=True)
+        with open(os.path.join(OUT, 'evidence', check + '.json'),
                   'w') as f:
             json.dump(ev, f, indent=1)
         cov = ev['coverage']
